@@ -85,7 +85,7 @@ class World:
             d = r.choice(ABS_DIRS + ABS_DIRS + URL_DIRS[:1])
         else:
             d = r.choice(URL_DIRS + URL_DIRS + ABS_DIRS[:1])
-        loc = d + 'f%d.bare' % self.n
+        loc = d + r.choice(['f%d.bare'] * 6 + ["it's%d.bare", 'b\\k%d.bare', 'sp ace%d.bare', 'q"%d.bare']) % self.n       # (quotes, a backslash, a blank in a file name)
         fid = 'F%d' % self.n
         stmts = [c08.log_stmt('begin ' + fid)]
         included_before = False
@@ -226,7 +226,7 @@ def gen_world(rnd, size):
     root = w.new_file(min(3, size), root_kind)
     inline = kind_of(root) == 'rel' and posixpath.dirname(root) == '' and rnd.random() < 0.5
     w.classes.add('root-inline' if inline else 'root-' + kind_of(root))
-    return w, root, inline, rnd.choice(['none', 'raise'])
+    return w, root, inline, rnd.choice(['none', 'none', 'raise', 'raise', 'nofetch'])
 
 
 def run_impl(w, root, inline, missing_mode, as_built=False):
@@ -244,6 +244,12 @@ def run_impl(w, root, inline, missing_mode, as_built=False):
         return text
     g = {}
     opts = {'globals': g, 'fetchFn': fetch, 'logFn': lambda m: logs.append(('log', m)), 'maxStatements': 20000}
+    if missing_mode == 'nofetch':
+        # a host without a fetch function: the first include that executes fails - and the error names the location it resolves to
+        if len(root) % 2:
+            del opts['fetchFn']
+        else:
+            opts['fetchFn'] = None
     if w.sys is not None:
         opts['systemPrefix'] = w.sys
     if not inline:
@@ -277,13 +283,13 @@ def run_impl(w, root, inline, missing_mode, as_built=False):
     return res, fetched, logs, user, second
 
 
-def run_ref(w, root, inline):
+def run_ref(w, root, inline, nofetch=False):
     logs = []
     g = {}
 
     def fetch(loc):
         v = w.files.get(normloc(loc))
-        if v is None:
+        if v is None or nofetch:
             return None
         if v[0] == 'broken':
             return ('parser-error', loc)
@@ -316,8 +322,8 @@ def check_world(w, root, inline, missing_mode, as_built=False):
     a = run_impl(w, root, inline, missing_mode, as_built)
     if a[0][0] == 'recursion':
         return None
-    b = run_ref(w, root, inline)
-    if a[1] != b[1]:
+    b = run_ref(w, root, inline, missing_mode == 'nofetch')
+    if a[1] != b[1] and missing_mode != 'nofetch':        # (without a fetch function there is nothing to observe but the error)
         n = next((i for i, (x, y) in enumerate(zip(a[1], b[1])) if x != y), min(len(a[1]), len(b[1])))
         raise Violation('fetch %d is %r, resolving against the including file gives %r (all: %r vs %r)' % (
             n, a[1][n] if n < len(a[1]) else None, b[1][n] if n < len(b[1]) else None, a[1], b[1]), d, 'fetch-sequence')
@@ -328,7 +334,7 @@ def check_world(w, root, inline, missing_mode, as_built=False):
     if a[3] != b[3]:
         raise Violation('final globals %r, expected %r' % (a[3], b[3]), d, 'globals')
     want_second = [normloc(jumpvm.resolve(None if inline else root, 'probe-after.bare'))]
-    if a[4] != want_second:
+    if a[4] != want_second and missing_mode != 'nofetch':
         raise Violation('a second script run with the same options object fetched its include from %r, the configured resolution gives %r '
                         '(state left behind by the first run, which ended with %r)' % (a[4], want_second, a[0]), d, 'second-run-resolution')
     return b
